@@ -66,6 +66,9 @@ type Disk struct {
 	Universal        bool
 	UniversalRoot    string
 	UniversalContent []byte
+	// ShadowDir: every path below this directory exists as a regular file holding
+	// UniversalContent (a working directory in which any relative name resolves).
+	ShadowDir string
 
 	Plan []PlannedFault
 
@@ -160,6 +163,14 @@ func (d *Disk) lookup(p string) (nodeKind, []byte) {
 	for q := filepath.Dir(p); q != "/" && q != "."; q = filepath.Dir(q) {
 		if _, ok := d.Files[q]; ok {
 			return nNotDir, nil
+		}
+	}
+	if d.ShadowDir != "" {
+		if p == d.ShadowDir || strings.HasPrefix(d.ShadowDir, strings.TrimSuffix(p, "/")+"/") {
+			return nDir, nil
+		}
+		if strings.HasPrefix(p, d.ShadowDir+"/") {
+			return nFile, d.UniversalContent
 		}
 	}
 	if d.Universal {
